@@ -18,6 +18,8 @@ namespace H
     struct { const char *key; const char *opt[6]; unsigned n; } strs[6]; unsigned n_strs;
     struct { const char *key; double value; } fixed[8]; unsigned n_fixed;      // keys answered with a concrete value
     const char *positive[4]; unsigned n_positive;                              // double lists whose entries the parser requires to be > 0 (delivered under that assumption)
+    bool (*u32_hook)(const std::string &, unsigned &);                          // optional: harness-defined answer for an unsigned entry (returns true when it answers)
+    bool (*check_hook)(const std::string &, bool &);                            // optional: harness-defined answer of check_entry
     unsigned surface_points;        // get(name, coordinates): number of additional points (0 => constant surface)
     void set_len(const char *k, unsigned n) { lens[n_lens].key = k; lens[n_lens].len = n; ++n_lens; }
     void set_fixed(const char *k, double v) { fixed[n_fixed].key = k; fixed[n_fixed].value = v; ++n_fixed; }
@@ -40,6 +42,7 @@ extern "C" {
   unsigned __wrap__ZN12WorldBuilder10Parameters3getIjEET_RKNSt7__cxx1112basic_stringIcSt11char_traitsIcESaIcEEE(Parameters *, const std::string *name)
   {
     for (unsigned i = 0; i < H::prm.n_fixed; ++i) if (*name == H::prm.fixed[i].key) return static_cast<unsigned>(H::prm.fixed[i].value);
+    if (H::prm.u32_hook) { unsigned r = 0; if (H::prm.u32_hook(*name, r)) return r; }
     return sym_u32(name->c_str());
   }
   bool __wrap__ZN12WorldBuilder10Parameters3getIbEET_RKNSt7__cxx1112basic_stringIcSt11char_traitsIcESaIcEEE(Parameters *, const std::string *name)
@@ -49,7 +52,8 @@ extern "C" {
   }
   void __wrap__ZN12WorldBuilder10Parameters16enter_subsectionERKNSt7__cxx1112basic_stringIcSt11char_traitsIcESaIcEEE(Parameters *, const std::string *) {}
   void __wrap__ZN12WorldBuilder10Parameters16leave_subsectionEv(Parameters *) {}
-  bool __wrap__ZNK12WorldBuilder10Parameters11check_entryERKNSt7__cxx1112basic_stringIcSt11char_traitsIcESaIcEEE(const Parameters *, const std::string *name) { return sym_bool(name->c_str()); }
+  bool __wrap__ZNK12WorldBuilder10Parameters11check_entryERKNSt7__cxx1112basic_stringIcSt11char_traitsIcESaIcEEE(const Parameters *, const std::string *name)
+  { if (H::prm.check_hook) { bool r = false; if (H::prm.check_hook(*name, r)) return r; } return sym_bool(name->c_str()); }
 }
 extern "C" std::string __wrap__ZN12WorldBuilder10Parameters3getINSt7__cxx1112basic_stringIcSt11char_traitsIcESaIcEEEEET_RKS7_(Parameters *, const std::string *name)
 {
